@@ -328,7 +328,15 @@ func c31LazyFills(r *core.Run) {
 				if _, isMap := lk.X.Type().Underlying().(*types.Map); !isMap {
 					continue
 				}
-				cache = "map " + core.OriginLeaves(lk.X)
+				// identity of the cache: the map's type and the fields it is reached through — not the function or the
+				// parameter position, so moving the site into a helper keeps the identity
+				var flds []string
+				for _, t := range strings.Fields(strings.Trim(core.OriginLeaves(lk.X), "{}")) {
+					if strings.HasPrefix(t, ".") {
+						flds = append(flds, t)
+					}
+				}
+				cache = "map " + types.TypeString(lk.X.Type(), func(p *types.Package) string { return p.Name() }) + " {" + strings.Join(flds, " ") + "}"
 				if neg {
 					miss = b.Succs[0]
 				} else {
@@ -360,7 +368,8 @@ func c31LazyFills(r *core.Run) {
 				}
 			}
 			if filled && metered {
-				got[core.SSAKey(top)+": "+cache]++
+				_ = top
+				got[cache]++
 			}
 		}
 	}
